@@ -252,11 +252,12 @@ Section MainLoop.
 
     Definition SInv (s : est) : Prop :=
       P H s /\ exists es, e_changes s = cs_notify_all U (useg U) (fst (cs_begin c0)) es.
-    Definition sp {A} (m : E A) : Prop :=
-      forall s, SInv s -> match m s with EPanic => False | EOk _ s' => P H s' | _ => True end.
-
-    Lemma sp_of_rp {A} (m : E A) : rp H m -> sp m.
-    Proof. intros Hr s [HP _]. apply Hr. exact HP. Qed.
+    (* what a sub-loop promises: the invariant, and -- when it ends with no command to execute (an abort) -- the typed
+       line, its cursor and the undo stack exactly as they were when the sub-loop began *)
+    Definition Qs (r : option cmd) (s' : est) : Prop :=
+      P H s' /\ (r = None -> e_changes s' = c0 /\ buf (e_line s') = t0 /\ pos (e_line s') = p0).
+    Definition sp (m : E (option cmd)) : Prop :=
+      forall s, SInv s -> match m s with EPanic => False | EOk r s' => Qs r s' | _ => True end.
 
     (* showing a hit: the line is replaced, the notifications go on top *)
     Lemma show_hit entry p s :
@@ -278,7 +279,7 @@ Section MainLoop.
       SInv s ->
       match (lb_changes U (update t0 p0) ;;; refresh_line U cfg ;;;
              (edo s1 <- eget; set_changes (cs_truncate (e_changes s1) (snd (cs_begin c0))) ;;; eret (@None cmd))) s with
-      | EPanic => False | EOk _ s' => P H s' | _ => True end.
+      | EPanic => False | EOk r s' => Qs r s' | _ => True end.
     Proof.
       intros HS. pose proof HS as [[[HJ HN] Hh] [es Hes]]. pose proof HJ as [Hw [Hi [Hk [Hs Hg]]]].
       destruct (RecallProofs.update_spec (e_line s) t0 p0 Hg (bd_le _ _ Hbd0)) as [ev Hu].
@@ -290,7 +291,9 @@ Section MainLoop.
       assert (Htr : cs_truncate (e_changes s2) (snd (cs_begin c0)) = c0).
       { rewrite C2, C, Hes. unfold cs_notify_all. rewrite <- fold_left_app.
         pose proof (abort_is_noop U (useg U) c0 (es ++ ev)) as Ha. destruct (cs_begin c0) as [c1 mk]. exact Ha. }
-      unfold ebind, eget, set_changes, eret. rewrite Htr. split; [split|].
+      unfold ebind, eget, set_changes, eret. rewrite Htr.
+      split; [|intros _; cbn; rewrite L2, L; repeat split].
+      split; [split|].
       - (* J *)
         split; [rewrite L2, L; exists (firstn 0 t0 ++ match bsplit t0 p0 with Some (l, _) => l | None => [] end),
                                       (match bsplit t0 p0 with Some (_, r) => r | None => [] end);
@@ -329,21 +332,29 @@ Section MainLoop.
         unfold changes_end. kh_auto.
       Qed.
 
+      (* leaving the loop with a command to execute *)
+      Lemma exit_q (c : cmd) s :
+        P H s -> match (edo _ <- changes_end; eret (Some c)) s with EPanic => False | EOk r s' => Qs r s' | _ => True end.
+      Proof.
+        intros HP. pose proof (exit_rp c s HP) as Hx. unfold ebind in *. destruct (changes_end s) as [u s1| | |]; auto.
+        cbn in *. split; [exact Hx|discriminate].
+      Qed.
+
       Lemma branch_ok backup_ok term idx d success c s :
         P H s ->
         match c with CReplace _ _ => True | _ => exists es, e_changes s = cs_notify_all U (useg U) (fst (cs_begin c0)) es end ->
         backup_ok = (t0, p0) ->
         match isearch_branch U cfg rec backup_ok (snd (cs_begin c0)) term idx d success c s with
-        | EPanic => False | EOk _ s' => P H s' | _ => True end.
+        | EPanic => False | EOk r s' => Qs r s' | _ => True end.
       Proof.
         intros HP Hc ->. unfold isearch_branch. unfold ebind at 1. cbn [eget]. cbv zeta.
-        assert (Hexit : forall c', match (edo _ <- changes_end; eret (Some c')) s with EPanic => False | EOk _ s' => P H s' | _ => True end)
-          by (intros c'; apply exit_rp; exact HP).
+        assert (Hexit : forall c', match (edo _ <- changes_end; eret (Some c')) s with EPanic => False | EOk r s' => Qs r s' | _ => True end)
+          by (intros c'; apply exit_q; exact HP).
         assert (Hmove : forall m, match (refresh_line U cfg ;;; (edo _ <- changes_end; eret (Some (CMove m)))) s with
-                                  | EPanic => False | EOk _ s' => P H s' | _ => True end).
-        { intros m. assert (Hr : rp H (refresh_line U cfg ;;; (edo _ <- changes_end; eret (Some (CMove m))))).
-          { apply rp_bind; [apply rp_of_kq; [apply kq_of_q5, q5_refresh_line|apply kh_refresh_line]|]. intros _. apply exit_rp. }
-          apply Hr. exact HP. }
+                                  | EPanic => False | EOk r s' => Qs r s' | _ => True end).
+        { intros m. unfold ebind at 1.
+          pose proof (rp_of_kq H _ (kq_of_q5 cfg _ (q5_refresh_line U cfg)) (kh_refresh_line U cfg) s HP) as Hx.
+          destruct (refresh_line U cfg s) as [u s1| | |]; auto. apply exit_q. exact Hx. }
         destruct c; try apply Hexit; try apply Hmove;
           try match goal with
               | m : movement |- _ => destruct m; try apply Hexit; apply rec_sp; split; assumption
@@ -381,10 +392,19 @@ Section MainLoop.
     Qed.
     End SearchLoop.
 
-    Theorem search_rp_emacs f : rp H (incremental_search U cfg f).
+    (* THE SEARCH SESSION: no panic, the invariant again, and -- if it ends without a command to execute (aborted,
+       or nothing to search) -- the line, its cursor and the undo stack are exactly those from before *)
+    Theorem search_result_emacs f s :
+      P H s ->
+      match incremental_search U cfg f s with
+      | EPanic => False
+      | EOk r s' => P H s' /\ (r = None -> e_changes s' = e_changes s /\ buf (e_line s') = buf (e_line s)
+                                           /\ pos (e_line s') = pos (e_line s))
+      | _ => True
+      end.
     Proof.
-      intros s HP. unfold incremental_search. unfold ebind at 1. cbn [eget].
-      destruct (Nat.eqb (hlen_e s) 0); [exact HP|].
+      intros HP. unfold incremental_search. unfold ebind at 1. cbn [eget].
+      destruct (Nat.eqb (hlen_e s) 0); [cbn; split; [exact HP|intros _; repeat split]|].
       destruct HP as [[HJ HN] Hh]. pose proof HJ as [Hw [Hi [Hk [Hs Hg]]]].
       unfold ebind at 1. unfold changes_begin. unfold ebind at 1. cbn [eget].
       destruct (cs_begin (e_changes s)) as [c1 mk] eqn:Eb. cbn [ebind set_changes eret].
@@ -396,6 +416,12 @@ Section MainLoop.
         unfold I. cbn [e_changes e_line]. replace c1 with (fst (cs_begin (e_changes s))) by (rewrite Eb; reflexivity).
         apply valid_begin. exact Hi.
       - exists []. unfold cs_notify_all. cbn [fold_left e_changes]. rewrite Eb. reflexivity.
+    Qed.
+
+    Theorem search_rp_emacs f : rp H (incremental_search U cfg f).
+    Proof.
+      intros s HP. pose proof (search_result_emacs f s HP) as Hx.
+      destruct (incremental_search U cfg f s); auto. apply Hx.
     Qed.
 
     (* ---------- completion (the completer keeps its contract) ---------- *)
@@ -433,15 +459,15 @@ Section MainLoop.
       (* the loop invariant: the search-loop one, and the replaced span still starts on a boundary before the cursor *)
       Definition LInv (s : est) : Prop :=
         SInv c0 s /\ bd (buf (e_line s)) start /\ start <= pos (e_line s).
-      Definition lp {A} (m : E A) : Prop :=
-        forall s, LInv s -> match m s with EPanic => False | EOk _ s' => P H s' | _ => True end.
+      Definition lp (m : E (option cmd)) : Prop :=
+        forall s, LInv s -> match m s with EPanic => False | EOk r s' => Qs c0 t0 p0 r s' | _ => True end.
 
       (* showing candidate i, or (i = number of candidates) the original line again *)
       Lemma show_candidate_ok i s :
         LInv s ->
         match show_candidate U start cands (t0, p0) i s with
         | EPanic => False
-        | EOk _ s' => LInv s' /\ (length cands <= i -> buf (e_line s') = t0)
+        | EOk _ s' => LInv s' /\ (length cands <= i -> buf (e_line s') = t0 /\ pos (e_line s') = p0)
         | _ => True
         end.
       Proof.
@@ -472,7 +498,7 @@ Section MainLoop.
           destruct (RecallProofs.update_spec (e_line s) t0 p0 Hg (bd_le _ _ Hbd0)) as [ev Hu].
           destruct (show_hit c0 t0 p0 s HS Hbd0) as [s1 [H1 HS1]].
           destruct (lb_changes_spec (update t0 p0) s tt _ ev Hu) as [s1' [H1' [L _]]]. rewrite H1 in H1'. inversion H1'; subst s1'.
-          rewrite H1. split; [split; [exact HS1|rewrite L; cbn; exact Hst0]|]. intros _. rewrite L. reflexivity.
+          rewrite H1. split; [split; [exact HS1|rewrite L; cbn; exact Hst0]|]. intros _. rewrite L. split; reflexivity.
       Qed.
 
       Section CBranch.
@@ -482,7 +508,7 @@ Section MainLoop.
         Lemma beep_rec (b : bool) j s :
           P H s -> bd (buf (e_line s)) start /\ start <= pos (e_line s) ->
           (exists es, e_changes s = cs_notify_all U (useg U) (fst (cs_begin c0)) es) ->
-          match ((if b then beep else eret tt) ;;; rec j) s with EPanic => False | EOk _ s' => P H s' | _ => True end.
+          match ((if b then beep else eret tt) ;;; rec j) s with EPanic => False | EOk r s' => Qs c0 t0 p0 r s' | _ => True end.
         Proof.
           intros HP Hline [es Hes]. unfold ebind at 1. destruct b.
           - pose proof (q5_beep s) as Hq. destruct (beep s) as [u s1| | |] eqn:Eb; auto.
@@ -495,14 +521,14 @@ Section MainLoop.
 
         Lemma circular_branch_ok i c s :
           P H s -> bd (buf (e_line s)) start /\ start <= pos (e_line s) ->
-          (length cands <= i -> buf (e_line s) = t0) ->
+          (length cands <= i -> buf (e_line s) = t0 /\ pos (e_line s) = p0) ->
           match c with CReplace _ _ => True | _ => exists es, e_changes s = cs_notify_all U (useg U) (fst (cs_begin c0)) es end ->
           match circular_branch U cfg rec cands (t0, p0) (snd (cs_begin c0)) i c s with
-          | EPanic => False | EOk _ s' => P H s' | _ => True end.
+          | EPanic => False | EOk r s' => Qs c0 t0 p0 r s' | _ => True end.
         Proof.
           intros HP Hline Horig Hc. unfold circular_branch.
-          assert (Hexit : forall c' : cmd, match (edo _ <- changes_end; eret (Some c')) s with EPanic => False | EOk _ s' => P H s' | _ => True end)
-            by (intros c'; apply exit_rp; exact HP).
+          assert (Hexit : forall c' : cmd, match (edo _ <- changes_end; eret (Some c')) s with EPanic => False | EOk r s' => Qs c0 t0 p0 r s' | _ => True end)
+            by (intros c'; apply exit_q; exact HP).
           destruct c; try apply Hexit; try (apply beep_rec; assumption).
           (* Abort *)
           assert (HS : SInv c0 s) by (split; assumption). cbn [fst snd].
@@ -513,8 +539,10 @@ Section MainLoop.
             unfold ebind, eget, set_changes, eret.
             assert (Htr : cs_truncate (e_changes s) (snd (cs_begin c0)) = c0).
             { rewrite Hes. pose proof (abort_is_noop U (useg U) c0 es) as Ha. destruct (cs_begin c0) as [c1 mk]. exact Ha. }
-            rewrite Htr. split; [split|exact Hh]; [|exact HN].
-            split; [exact Hw|]. split; [unfold I; cbn; rewrite Horig; exact Hv0|]. split; [exact Hk|split; [exact Hsv|exact Hg]].
+            rewrite Htr. destruct Horig as [Hob Hop].
+            split; [|intros _; cbn; repeat split; assumption].
+            split; [split|exact Hh]; [|exact HN].
+            split; [exact Hw|]. split; [unfold I; cbn; rewrite Hob; exact Hv0|]. split; [exact Hk|split; [exact Hsv|exact Hg]].
         Qed.
       End CBranch.
 
@@ -584,7 +612,8 @@ Section MainLoop.
         unfold ebind at 1. unfold changes_begin. unfold ebind at 1. cbn [eget].
         destruct (cs_begin (e_changes s)) as [c1 mk] eqn:Eb. cbn [ebind set_changes eret].
         replace mk with (snd (cs_begin (e_changes s))) by (rewrite Eb; reflexivity).
-        apply (complete_circular_lp (e_changes s) (buf (e_line s)) (pos (e_line s)) start (cd :: cds) Hi Hw (conj Hbs Hle) f 0).
+        match goal with |- match ?m ?st with _ => _ end =>
+          assert (HL : LInv (e_changes s) start st); [|pose proof (complete_circular_lp (e_changes s) (buf (e_line s)) (pos (e_line s)) start (cd :: cds) Hi Hw (conj Hbs Hle) f 0 st HL) as Hx; destruct (m st); auto; apply Hx] end.
         split; [split|cbn; split; assumption].
         + split; [split|exact Hh]; [|exact HN].
           split; [exact Hw|]. split; [|split; [exact Hk|split; [exact Hsv|exact Hg]]].
@@ -654,12 +683,74 @@ Section MainLoop.
         repeat match goal with |- rp H (match ?x with _ => _ end) => destruct x; try exact Hno; try apply rp_page end.
     Qed.
 
+    (* THE CIRCULAR COMPLETION SESSION: if it ends without a command to execute (aborted, or nothing to complete), the
+       line, its cursor and the undo stack are exactly those from before *)
+    Theorem circular_result_emacs f s :
+      P H s -> c_completion cfg = CTCircular ->
+      match complete_line U cfg f s with
+      | EPanic => False
+      | EOk r s' => P H s' /\ (r = None -> e_changes s' = e_changes s /\ buf (e_line s') = buf (e_line s)
+                                           /\ pos (e_line s') = pos (e_line s))
+      | _ => True
+      end.
+    Proof.
+      intros HP Hct. unfold complete_line. unfold ebind at 1. cbn [eget].
+      pose proof HP as [[HJ HN] Hh]. pose proof HJ as [Hw [Hi [Hk [Hsv Hg]]]].
+      destruct (completer_ok (buf (e_line s)) (pos (e_line s)) Hw) as [Hbs Hle].
+      destruct (c_complete cfg (buf (e_line s)) (pos (e_line s))) as [start cands]. cbn [fst] in Hbs, Hle.
+      destruct cands as [|cd cds].
+      { unfold ebind. pose proof (q5_beep s) as Hq.
+        pose proof (rp_of_kq H _ (kq_of_q5 cfg _ q5_beep) ltac:(unfold beep; kh_auto) s HP) as Hx.
+        destruct (beep s) as [u s1| | |]; auto. destruct Hq as [[L1 [C1 _]] _]. cbn.
+        split; [exact Hx|intros _; rewrite L1, C1; repeat split]. }
+      rewrite Hct.
+      unfold ebind at 1. unfold changes_begin. unfold ebind at 1. cbn [eget].
+      destruct (cs_begin (e_changes s)) as [c1 mk] eqn:Eb. cbn [ebind set_changes eret].
+      replace mk with (snd (cs_begin (e_changes s))) by (rewrite Eb; reflexivity).
+      apply (complete_circular_lp (e_changes s) (buf (e_line s)) (pos (e_line s)) start (cd :: cds) Hi Hw (conj Hbs Hle) f 0).
+      split; [split|cbn; split; assumption].
+      + split; [split|exact Hh]; [|exact HN].
+        split; [exact Hw|]. split; [|split; [exact Hk|split; [exact Hsv|exact Hg]]].
+        unfold I. cbn [e_changes e_line]. replace c1 with (fst (cs_begin (e_changes s))) by (rewrite Eb; reflexivity).
+        apply valid_begin. exact Hi.
+      + exists []. unfold cs_notify_all. cbn [fold_left e_changes]. rewrite Eb. reflexivity.
+    Qed.
+
     (* A WHOLE READ IN EMACS MODE, any history, with or without a helper *)
     Theorem read_never_panics_emacs prompt initial kr inp :
       kr_inv kr -> fst (read_line U cfg prompt initial H kr inp) <> OPanic.
     Proof. apply read_rp; [exact search_rp_emacs|intros _; exact complete_rp_emacs]. Qed.
   End EmacsSearch.
 End MainLoop.
+
+(* the two session theorems in the form C05 states them *)
+Theorem search_abort_is_noop (U : UData) (cfg : config) :
+  is_emacs cfg = true ->
+  forall (f : nat) (s : est), J s -> Nv cfg s ->
+  match incremental_search U cfg f s with
+  | EPanic => False
+  | EOk r s' => r = None -> e_changes s' = e_changes s /\ buf (e_line s') = buf (e_line s) /\ pos (e_line s') = pos (e_line s)
+  | _ => True
+  end.
+Proof.
+  intros He f s HJ HN. pose proof (search_result_emacs U cfg He (e_hist s) f s (conj (conj HJ HN) eq_refl)) as Hx.
+  destruct (incremental_search U cfg f s); auto. apply Hx.
+Qed.
+
+Theorem completion_abort_is_noop (U : UData) (cfg : config) :
+  is_emacs cfg = true -> c_completion cfg = CTCircular ->
+  (forall text p, bd text p -> bd text (fst (c_complete cfg text p)) /\ fst (c_complete cfg text p) <= p) ->
+  forall (f : nat) (s : est), J s -> Nv cfg s ->
+  match complete_line U cfg f s with
+  | EPanic => False
+  | EOk r s' => r = None -> e_changes s' = e_changes s /\ buf (e_line s') = buf (e_line s) /\ pos (e_line s') = pos (e_line s)
+  | _ => True
+  end.
+Proof.
+  intros He Hct Hc f s HJ HN.
+  pose proof (circular_result_emacs U cfg He (e_hist s) Hc f s (conj (conj HJ HN) eq_refl) Hct) as Hx.
+  destruct (complete_line U cfg f s); auto. apply Hx.
+Qed.
 
 (* the contract is satisfiable: the scripted completer of the correspondence check keeps it *)
 Lemma script_complete_ok cands text p :
